@@ -110,9 +110,15 @@ def preprocess_clause(cl, rng, n, replay):
             t = np.arange(N) * dt
             comp = [rng.normal(0, 1, N) + 0.01 * t * rng.uniform(-3, 3) + rng.uniform(-2, 2) for _ in range(3)]
             deg = float(rng.choice([0., 30., 200., 400.]))
+            rec = rp.mk_record(comp[0], comp[1], comp[2], dt, degrees_from_north=deg)
+            if j % 3 == 2 and det in ("linear", "constant"):
+                # a record that was already detrended as a whole, in the same manner, before it is handed to preprocess: its windows are still
+                # detrended one by one (a slice of a detrended record is not detrended)
+                rec.detrend(type=det)
+                comp = [detrend(np.array(c, dtype=float), type=det) for c in comp]
             raws.append(comp)
             degs.append(deg)
-            recs.append(rp.mk_record(comp[0], comp[1], comp[2], dt, degrees_from_north=deg))
+            recs.append(rec)
         s = hvsrpy.HvsrPreProcessingSettings(orient_to_degrees_from_north=target, filter_corner_frequencies_in_hz=list(corners),
                                              window_length_in_seconds=L, detrend=det)
         out = hvsrpy.preprocess(recs, s)
